@@ -939,6 +939,42 @@ def dashed_name_part(h):
             h.nontrivial(sig)
 
 
+def no_defaults_part(h):
+    """E9: defaults=False takes the source-code defaults and the default config files out of the chain and nothing else: the environment of a parser
+    built with default_env (or asked for with env=True) still applies below the input, for every parse method alike."""
+    from jsonargparse import ArgumentParser
+
+    saved = os.environ.get("APP_A")
+    os.environ["APP_A"] = "5"
+    try:
+        with tempfile.TemporaryDirectory(prefix="b04_nd_") as tmp:
+            path = os.path.join(tmp, "in.json")
+            with open(path, "w") as f:
+                json.dump({"b": 3}, f)
+            for envmode, pkw, ckw, env_counts in (("default_env", {"default_env": True}, {}, True), ("env=True", {}, {"env": True}, True), ("off", {}, {}, False), ("default_env,env=False", {"default_env": True}, {"env": False}, False)):
+                for method in ("args", "object", "string", "path"):
+                    try:
+                        with quiet():
+                            p = ArgumentParser(exit_on_error=False, env_prefix="APP", **pkw)
+                            p.add_argument("--a", type=int, default=1)
+                            p.add_argument("--b", type=int, default=2)
+                            call = dict(ckw, defaults=False)
+                            res = {"args": lambda: p.parse_args(["--b=3"], **call), "object": lambda: p.parse_object({"b": 3}, **call), "string": lambda: p.parse_string('{"b": 3}', **call),
+                                   "path": lambda: p.parse_path(path, **call)}[method]()
+                        got = {k: res.get(k, "<absent>") for k in ("a", "b")}
+                    except BaseException as ex:  # noqa
+                        got = "raised %s" % type(ex).__name__
+                    want = {"a": 5 if env_counts else "<absent>", "b": 3}
+                    h.check(got == want, "c04:defaults=False:%s:%s:%s" % (envmode, method, "environment-variable-not-applied" if isinstance(got, dict) and got.get("a") == "<absent>" and env_counts else "other"),
+                            "defaults=False, %s, %s: expected %r, got %r" % (envmode, method, want, got), {"parser": "--a: int = 1, --b: int = 2, env_prefix=APP, " + envmode, "os.environ": {"APP_A": "5"}, "input": {"b": 3}, "method": method})
+                    h.nontrivial(("defaults=False", envmode, method))
+    finally:
+        if saved is None:
+            os.environ.pop("APP_A", None)
+        else:
+            os.environ["APP_A"] = saved
+
+
 def main():
     h = Harness("b04_precedence", rule="one evaluation = one parse of one chain of sources compared, key by key, with the reference fold; "
                 "distinct non-trivial = distinct (method, env mode, prefix, chain descriptor) with at least one source besides the defaults")
@@ -962,6 +998,7 @@ def main():
     relative_patterns_part(h)
     nested_list_part(h)
     dashed_name_part(h)
+    no_defaults_part(h)
     if h.thorough:
         bound = ("0-3 default config files in %d layouts (direct paths, a glob whose listing order differs from the sorted order, a missing file, an empty file, ~, a '?' glob "
                  "with a non-matching file) x 3-5 contents per file; env config {none, string, file} x 3 contents (+1 without appends); env variables {none, 2 sets, each "
